@@ -169,6 +169,18 @@ def segs4Ok : Bytes → Bool
 termination_by bs => bs.length
 decreasing_by simp only [List.length_drop, List.length_cons]; omega
 
+/-- the TLV walk of `Attribute::decode` for AIGP (C05 repair 1831a53): 1-byte type, 2-byte length that
+    includes these three bytes, at least 3 and not past the end -/
+def aigpOk : Bytes → Bool
+  | [] => true
+  | [_] => false
+  | [_, _] => false
+  | _ :: l1 :: l2 :: rest =>
+      if 3 ≤ l1 * 256 + l2 ∧ l1 * 256 + l2 ≤ rest.length + 3 then aigpOk (rest.drop (l1 * 256 + l2 - 3))
+      else false
+termination_by bs => bs.length
+decreasing_by simp only [List.length_drop, List.length_cons]; omega
+
 /-- `Attribute::decode(code, flags, c, len, two_byte_as = false)`: the data part; `none` = `Err(())` -/
 def decodeData (code : Nat) (bs : Bytes) : Option Data :=
   let len := bs.length
@@ -197,6 +209,10 @@ def decodeData (code : Nat) (bs : Bytes) : Option Data :=
     else if segs4Ok bs then some (.bin bs) else none
   else if code = 18 then
     if len ≠ 8 then none else some (.bin bs)
+  else if code = 3 then
+    if len ≠ 4 then none else some (.bin bs)
+  else if code = 26 then
+    if aigpOk bs then some (.bin bs) else none
   else some (.bin bs)
 
 inductive Decoded where
@@ -496,6 +512,7 @@ def fromApi (fx : Fixes) : ApiAttr → Out Attribute
           match canonicalFlags code with
           | some f =>
               if typedCode code then .err
+              else if code = 26 ∧ aigpOk value = false then .err
               else .ok { code := code, flags := f, data := .bin value }
           | none =>
               if flags / 128 % 2 = 1 ∧ flags / 64 % 2 = 1 then
